@@ -720,8 +720,8 @@ pub fn run(ctx: &Ctx) {
     ctx.assume("anchors on a dependency cycle (static reads, spill cells depend on their anchor, would-be blocks) and anchors whose block shows #CIRC! while the stored inputs show none are not subject to the exactness check: whether #CIRC! is justified is C05's question");
     ctx.assume("the overwrite check compares the content of every non-empty non-spill cell immediately before and after evaluate() in the paused variant");
     let (cases, len) = match ctx.tier {
-        Tier::Quick => (20000, 16),
-        Tier::Thorough => (400000, 30),
+        Tier::Quick => (80000, 16),
+        Tier::Thorough => (1600000, 30),
     };
     let avoid = avoid_of(ctx);
     ctx.campaign(
